@@ -314,7 +314,8 @@ func c13BFS(r *core.Rec, A, depth int, roots [][]uint8) (states int64) {
 				if p := core.Catch(func() { n = st.apply(od) }); p != nil {
 					h := c13HistOf(A, ops, append(append([]uint8{}, st.path...), uint8(oi)))
 					r.Case("hist", h)
-					r.Fail("panic", "panic in %v: %v", od.op, p)
+					// re-execute through the replayable check so the signature is the canonical one
+					r.Try(func() { c13CheckHist(h, r) })
 					continue
 				}
 				r.Trans(1)
